@@ -234,7 +234,7 @@ def annotate_history(scen):
     return scen
 
 
-def gen_history(rng, k, tier, sms, failures=False):
+def gen_history(rng, k, tier, sms, failures=False, mixed=True):
     """a pool and a history of map-family calls, setters and (optionally) failing calls"""
     nj = rng.choice([1, 2, 3, 4])
     pool = {'n_jobs': nj, 'start_method': sms[k % len(sms)], 'keep_alive': rng.random() < 0.7}
@@ -307,6 +307,52 @@ def gen_history(rng, k, tier, sms, failures=False):
                 pool['keep_alive'] = False          # fresh workers for every call: init runs, exit runs at the end of the call
         calls.append(call)
         j += 1
+        if mixed and not call.get('fail') and rng.random() < 0.3 and j < 6:
+            # tasks submitted through apply_async in between: they leave the workers alive, whatever keep_alive says
+            nb = rng.choice([2, 5])
+            calls.append({'kind': 'apply_batch', 'jobs': [{'id': i, 'args': [1000 * (j + 1) + 700 + i], 'cbs': [False, False]} for i in range(nb)],
+                          'get_timeout': 30, 'no_join': True, 'dynamic_extras': True})
+        if mixed and not call.get('fail') and rng.random() < 0.3 and j < 6:
+            # ... and the very same call as an earlier one again (other calls in between): A, B, A
+            import copy
+            prev = [c for c in calls if 'n' in c and not c.get('fail')]
+            again = copy.deepcopy(rng.choice(prev))
+            again['base'] = 1000 * (j + 1)
+            if again.get('input') == 'gen':
+                again['params']['iterable_len'] = again['n']
+            calls.append(again)
+            j += 1
     calls.append({'kind': 'stop_and_join', 'want_exit_results': True})
     sc = {'id': f'h{k}', 'pool': pool, 'calls': calls, 'budget': 75, 'behaviour': behaviour}
     return annotate_history(sc)
+
+
+def check_apply_batch(call, out):
+    """an apply batch inside a history: every job returns the reference value of its own argument"""
+    if out.get('outcome') != 'ok':
+        return f"apply batch raised {out.get('exc', {}).get('type')}: {out.get('exc', {}).get('args', '')[:120]}"
+    for j, v in zip(call['jobs'], out.get('value', [])):
+        if v[0] != 'ok' or not (isinstance(v[1], list) and v[1][:2] == ['R', ['tuple', [j['args'][0]]]]):
+            return f"apply job {j['args'][0]} returned {str(v)[:120]}"
+    return None
+
+
+def check_own_function(call, rec):
+    """C02 on a history: every task of this call was executed exactly once, by the call's own function"""
+    if call.get('input') == 'ndarray':
+        return None
+    want_fn = call.get('func', 'task')
+    lo = call.get('base', 0)
+    evs = [e for e in task_events(rec) if isinstance(e.get('args'), list) and e['args'][1] and isinstance(e['args'][1][0], int)
+           and lo <= e['args'][1][0] < lo + 500] if call.get('elem', 'scalar') in ('scalar', 'tuple', 'tuple1', 'list') else None
+    if evs is None:
+        return None
+    got = collections.Counter(e['args'][1][0] for e in evs)
+    exp = collections.Counter(range(lo, lo + effective_n(call)))
+    if got != exp:
+        return (f"call base={lo}: its function was entered for {sum(got.values())} tasks, {effective_n(call)} expected; never entered for "
+                f"{sorted((exp - got).elements())[:4]}, more than once for {sorted((got - exp).elements())[:4]}")
+    wrong = [e for e in evs if e.get('fn', 'task') != want_fn]
+    if wrong:
+        return f"call base={lo} ({want_fn}): {len(wrong)} of its tasks were executed by {wrong[0].get('fn')}"
+    return None
